@@ -171,7 +171,11 @@ type errorExtra struct {
 // When debug is false, stack traces and file paths are omitted to avoid leaking
 // implementation details to clients.
 func buildErrorExtra(err error, debug bool) string {
-	errType := fmt.Sprintf("%T", err)
+	// Anything that is not an *RpcError or a typed framework error is
+	// reported as RuntimeError, as documented (docs/guide/errors.md). A "%T"
+	// fallback would put Go-internal type names such as "*errors.errorString"
+	// into a cross-language error payload.
+	errType := "RuntimeError"
 
 	// Prefer the wire-stable class name for typed errors.
 	switch e := err.(type) {
